@@ -1,9 +1,129 @@
-(** C11 - including a file is the same as pasting it, and files are found where documented. *)
+(** C11 - including a file is the same as pasting it, and files are found where documented.
+    Property theorems only; proofs are in Proofs/FileProofs.v (and Proofs/CondProofs.v).
+    The objects: Model/Fs.v (paths as std::path sees them; a file system of directories and regular
+    files without symbolic links) and Model/Files.v ([file_at] = parser::parse_file_internal,
+    [build_file] = builder::build_file). *)
 From Coq Require Import List ZArith NArith String.
 Import ListNotations.
-Require Import AvraV.Model.Base AvraV.Model.Ast AvraV.Model.Fs AvraV.Model.Parse AvraV.Model.Passes AvraV.Model.Files.
+Require Import AvraV.Model.Base AvraV.Model.Ast AvraV.Model.Eval AvraV.Model.Lines AvraV.Model.Fs AvraV.Model.Parse AvraV.Model.Passes AvraV.Model.Files.
+Require Import AvraV.Proofs.CondProofs AvraV.Proofs.FileProofs AvraV.Gen.Devices.
+
+(** (1) FOUND WHERE DOCUMENTED.  [locate] is where a name is looked for. *)
+(** the path as written (relative to the working directory) comes first *)
+Theorem C11_as_written : forall fs ips t, exists_path fs t = true -> locate fs ips t = t.
+Proof. exact locate_as_written. Qed.
+(** otherwise a directory of the include set that has it *)
+Theorem C11_in_set : forall fs ips t q, exists_path fs t = false -> In q ips -> exists_path fs (join q t) = true ->
+  exists q', In q' ips /\ locate fs ips t = join q' t /\ exists_path fs (join q' t) = true.
+Proof. exact locate_in_set. Qed.
+(** the set a file's lines are parsed with contains the file's own directory and all that the including file searched *)
+Theorem C11_own_directory : forall st p d, parent p = Some d -> In d (ipaths (fl (file_start st p))).
+Proof. exact own_directory_searched. Qed.
+Theorem C11_inherited : forall st p q, In q (ipaths (fl st)) -> In q (ipaths (fl (file_start st p))).
+Proof. exact inherited_searched. Qed.
+(** directories supplied by the caller are in the set from the start *)
+Theorem C11_caller : forall paths p, In p paths -> In (components p) (set_of (map components paths)).
+Proof. exact caller_directories_searched. Qed.
+(** .includepath adds its directory - a relative one resolved against the directory of the file
+    containing the directive - and removes nothing *)
+Theorem C11_includepath : forall fuel inc ln lab ops t st,
+  parse_line (snd ln) = Some (DirLine lab DIncludePath ops) -> first_op ops = Some (Some (PS t)) ->
+  exists st', line_step fuel inc ln false st = Ok (st', NewLine) /\
+    In (if is_abs (components t) then components t
+        else join (match parent (cur_path (fl st)) with Some d => d | None => [] end) (components t)) (ipaths (fl st')) /\
+    (forall q, In q (ipaths (fl st)) -> In q (ipaths (fl st'))) /\ cur_path (fl st') = cur_path (fl st).
+Proof. exact includepath_adds. Qed.
+(** an included file is parsed from [file_start]; when it ends, the including file goes on with its own
+    current path and with every directory it searched before (plus what .includepath added inside) *)
+Theorem C11_file : forall fs fuel l t st src,
+  read_path fs (locate fs (ipaths (fl st)) (components t)) = Some src ->
+  exists back,
+  file_at fs fuel (S l) t st =
+    (do st' <- parse_iter fuel (file_at fs fuel l) (S (length (number_from 0 (split_lines src)))) (number_from 0 (split_lines src)) false
+                 (file_start st (locate fs (ipaths (fl st)) (components t)));
+     Ok (with_fl st' {| cur_path := cur_path (fl st); ipaths := back st' |})) /\
+  forall st' q, In q (ipaths (fl st)) -> In q (back st').
+Proof. exact file_at_unfold. Qed.
+(** a file found nowhere fails the build *)
+Theorem C11_not_found : forall fs fuel l t st,
+  exists_path fs (components t) = false ->
+  (forall q, In q (ipaths (fl st)) -> exists_path fs (join q (components t)) = false) ->
+  file_at fs fuel (S l) t st = Err None.
+Proof. exact not_found_fails. Qed.
+Print Assumptions C11_not_found.
+
+(** (2) INCLUDING = PASTING.  Let an .include line (with or without a label) name a file that is
+    found, whose text is a well-formed block tree [ns] (plain lines, conditional blocks, macro
+    definitions - nested to any depth) none of whose lines is itself .include / .includepath,
+    optionally followed by an .exit line and arbitrary text ([inert tail]).  Then for every state,
+    every continuation [post] of the including file and every outcome [res] the tree semantics
+    allows: the line loop on  <include line> :: post  and the line loop on  <lines of the file> ++
+    post  (after the include line's own label) both end in [res] - same segments, macros, messages,
+    symbols, device, errors.  Definitions made in the file are visible afterwards (the state flows
+    on), the text after .exit is never looked at, and .exit ends only the included file ([post]
+    still runs).  Nested includes follow by applying the theorem from the innermost file outwards. *)
+Theorem C11_include_is_paste : forall fs fuel l ln lab ops t src ns tail st o,
+  let inc := file_at fs fuel (S l) in
+  let st1 := label_item st lab (fst ln + 1) in
+  parse_line (snd ln) = Some (DirLine lab DInclude ops) -> first_op ops = Some (Some (PS t)) ->
+  read_path fs (locate fs (ipaths (fl st1)) (components t)) = Some src ->
+  number_from 0 (split_lines src) = (fl_nodes ns ++ tail)%list -> inert fuel tail ->
+  wf_nodes ns -> nf_nodes ns -> sorted (ipaths (fl st1)) ->
+  ex_nodes fuel inc ns st1 = Some o ->
+  forall post res, Cont fuel inc o post res ->
+    Run fuel inc (ln :: post) false st res /\ Run fuel inc (fl_nodes ns ++ post) false st1 res.
+Proof. exact include_is_paste. Qed.
+Print Assumptions C11_include_is_paste.
+(** [Run] is what the model's loop computes (fuel permitting) *)
+Theorem C11_run_is_loop : forall fuel inc ls sk st res,
+  Run fuel inc ls sk st res -> forall g, (length ls < g)%nat -> parse_iter fuel inc g ls sk st = res.
+Proof. exact run_complete. Qed.
+(** the tails allowed after the balanced text *)
+Theorem C11_tail_nothing : forall fuel, inert fuel [].
+Proof. exact inert_nil. Qed.
+Theorem C11_tail_exit : forall fuel e junk ops, parse_line (snd e) = Some (DirLine None DExit ops) -> inert fuel (e :: junk).
+Proof. exact inert_exit. Qed.
+(** the hypothesis [sorted] is an invariant: the caller's set is sorted and every step keeps it so *)
+Theorem C11_sorted_start : forall l, sorted (set_of l).
+Proof. exact set_of_sorted. Qed.
+Theorem C11_sorted_kept : forall fs fuel l, keeps_sorted (file_at fs fuel l).
+Proof. exact file_at_sorted. Qed.
+Theorem C11_sorted_loop : forall fuel inc, keeps_sorted inc -> forall g ls sk st st',
+  parse_iter fuel inc g ls sk st = Ok st' -> fl_sorted st -> fl_sorted st'.
+Proof. exact parse_iter_sorted. Qed.
+Print Assumptions C11_sorted_kept.
+
+(** (3) nesting is bounded (MAX_INCLUDE_DEPTH = 64): a file that includes itself ends in an error *)
+Theorem C11_depth : forall fs fuel t st, file_at fs fuel 0 t st = Err None.
+Proof. exact depth_bounded. Qed.
+
+(** Non-vacuity: paths, and a tree on which an include from a sub-directory, an .includepath made
+    inside the included file, and an .exit all take effect. *)
 Example C11_components :
   components (lit "./a//b/./c") = [CCur; CNorm (lit "a"); CNorm (lit "b"); CNorm (lit "c")] /\
   components (lit "//x/../y/") = [CRoot; CNorm (lit "x"); CParent; CNorm (lit "y")] /\
   parent (components (lit "main.asm")) = Some [] /\ parent (components (lit "/")) = None.
 Proof. vm_compute. repeat split; reflexivity. Qed.
+Definition nl := String (Ascii.ascii_of_N 10) EmptyString.
+Local Open Scope string_scope.
+Definition sample_fs : fsys :=
+  {| fs_cwd := [lit "p"];
+     fs_dirs := [[lit "p"]; [lit "p"; lit "sub"]; [lit "p"; lit "sub"; lit "deep"]];
+     fs_files := [([lit "p"; lit "main.asm"], lit (".include ""sub/f.inc""" ++ nl ++ ".include ""x.inc""" ++ nl ++ " ldi r16, k" ++ nl));
+                  ([lit "p"; lit "sub"; lit "f.inc"], lit (".includepath ""deep""" ++ nl ++ ".equ k = 5" ++ nl ++ ".exit" ++ nl ++ "never seen" ++ nl));
+                  ([lit "p"; lit "sub"; lit "deep"; lit "x.inc"], lit (" nop" ++ nl))] |}.
+Example C11_example :
+  match build_file sample_fs 100 (lit "main.asm") [] with Ok b => Some (b_code b) | _ => None end = Some [0; 0; 5; 224]%N.
+Proof. vm_compute. reflexivity. Qed.
+
+(** the hypotheses of (2) are satisfiable: a header with a definition and a macro, ended by .exit *)
+Definition L (n : N) (s : string) : N * str := (n, list_ascii_of_string s).
+Definition header : nodes :=
+  Ncons (NLine (L 0 ".equ k = 5")) (Ncons (NMacro (L 1 ".macro m") (Ncons (NLine (L 2 " subi r16, @0")) Nnil) (L 3 ".endm")) Nnil).
+Example C11_hypotheses_met :
+  wf_nodes header /\ nf_nodes header /\
+  (exists s, ex_nodes 50 (file_at sample_fs 50 3) header (pstate_new (Eval.ctx_new default_device)) = Some (Ok s) /\
+             length (macros s) = 1%nat) /\
+  number_from 0 (split_lines (lit (".equ k = 5" ++ nl ++ ".macro m" ++ nl ++ " subi r16, @0" ++ nl ++ ".endm" ++ nl ++ ".exit" ++ nl ++ "junk" ++ nl)))
+    = (fl_nodes header ++ [L 4 ".exit"; L 5 "junk"])%list.
+Proof. vm_compute. repeat split; try reflexivity; try exact I. eexists. split; reflexivity. Qed.
